@@ -4,4 +4,5 @@
 import Bardolph.Driver.All
 import Bardolph.Audit.Tool
 import Bardolph.Props.C11
+import Bardolph.Props.C19
 import Bardolph.Props.C20
